@@ -1,5 +1,5 @@
 -- witness: java|stdout-not-flushed
--- Q: 1
+-- Qs: 1 3 9
 -- foamj.Foam.fputs/fputc write byte by byte to System.out and nothing flushes it at exit: text after
 -- the last newline is lost when the class finishes (the interpreter and C print it).
 #include "aldor"
